@@ -66,7 +66,8 @@ def eval_where(atoms, vals):
 def c13_queries(c):
     qs = []
     for q in field(c, "queries") or []:
-        d = {"qid": int(q[1]), "kind": q[2], "sql": bytes.fromhex(q[3]).decode(), "nkeys": int(q[4])}
+        d = {"qid": int(q[1]), "kind": q[2], "sql": bytes.fromhex(q[3]).decode(), "nkeys": int(q[4]),
+             "keypos": [int(x) for x in q[6][1:]]}
         w = field(q[9:], "where") if len(q) > 9 else None
         d["where"] = w or []
         qs.append(d)
@@ -250,6 +251,26 @@ def judge_query13(r, T, qid, g, nrs):
                 T.findings.append((sg, what + ("" if len(sigs) == 1 else " [jointly: %s]" % " + ".join(sigs)), dict(rep, attributed=sigs)))
         elif impl and which == "on" and pushed == "true":
             T.nontrivial.add((cid, sql))
+    # ORDER BY <key> on top of the range scan: compared as SEQUENCES on the key column (the planner
+    # drops the sort when it believes the scan is key-ordered - it must be, also under a KeyRange)
+    if q["keypos"]:
+        kp = q["keypos"][0]
+        T.dist["ordered by key"] += 1
+        for which, impl, mrows in (("on", on, m_on), ("off", off, m_off)):
+            if impl is None or mrows is None:
+                continue
+            sql = q["sql"] + (" [optimizer off]" if which == "off" else "")
+            keys_i = [row[kp] for row in impl]
+            T.ivo["compared"] += 1
+            if keys_i != sorted(keys_i, key=vkey):
+                T.ivo["disagree"] += 1
+                T.findings.append(("unexplained:order-" + which, "%s is not in key order: %s (case %d, %d row-sets)" % (sql, keys_i[:12], cid, nrs),
+                                   dict(replay, sql=sql, impl=impl, tags=tags)))
+            T.mvi["compared"] += 1
+            if [k[0] for k, _ in mrows] != keys_i:
+                T.mvi["disagree"] += 1
+                T.corr.append(("order:" + which, "case %d: %s: key sequence differs between model and implementation" % (cid, sql),
+                               dict(replay, sql=sql, impl=impl, model=[k[0] for k, _ in mrows])))
     # optimizer on vs off directly
     T.ivo["compared"] += 1
     if on is not None and off is not None and bag(tuple(x) for x in on) != bag(tuple(x) for x in off):
@@ -257,7 +278,7 @@ def judge_query13(r, T, qid, g, nrs):
 
 
 def run(ck):
-    n = 380 if ck.quick() else 4000
+    n = 380 if ck.quick() else 3300
     run_translators(ck)
     bad = vlib.step_lean(ck, "RlModel.Thm.C13", THEOREMS, extra_targets=["drv_c13"])
     ok, log = vlib.step_cargo(ck, ["c13"])
